@@ -239,6 +239,8 @@ def shape_tag(sig):
 def check(c, st):
     if c.get('kind') == 'names':
         return check_names(c, st)
+    if c.get('kind') == 'factory':
+        return check_factory(c, st)
     fu = common.load('funcutils')
     sig = c['sig']
     f = make(sig)
@@ -491,6 +493,48 @@ NAME_SOURCES = [
 ]
 
 
+def check_factory(c, st):
+    """Functions made by one factory (same code object) whose defaults are equal without being the same (1, True, 1.0;
+    0, False, -0.0): each wrapper carries ITS function's defaults, in the signature and in what it forwards."""
+    fu = common.load('funcutils')
+
+    def make(d, kd):
+        def target(a, b=d, *, k=kd):
+            "made by a factory"
+            return (a, b, k)
+        return target
+    combos = [(1, 1), (True, 1.0), (1.0, True), (0, False), (-0.0, 0), (False, 0.0), ((1,), (True,)), ((1.0,), (1,))]
+    order = combos if c['order'] == 'fwd' else list(reversed(combos))
+    for d, kd in order:
+        f = make(d, kd)
+
+        def passthrough(*a, **kw):
+            return f(*a, **kw)
+        st.monitor_evals += 1
+        try:
+            w = fu.wraps(f)(passthrough)
+        except Exception as e:
+            return ('wraps-raised:factory:%s' % type(e).__name__, 'wraps raised %r' % (e,))
+        sd = sigdiff(inspect.signature(f), inspect.signature(w, follow_wrapped=False))
+        if sd:
+            return ('signature:%s:factory' % sd, 'function made by a factory with defaults (%r, %r): wrapper signature %s, its own %s'
+                    % (d, kd, inspect.signature(w, follow_wrapped=False), inspect.signature(f)))
+        got, want = w('x'), f('x')
+        if repr(got) != repr(want) or got[1] is not want[1] or got[2] is not want[2]:
+            return ('call:factory', 'wrapper of the function made with defaults (%r, %r) forwards %r, the function itself sees %r'
+                    % (d, kd, got, want))
+        for inj in ('b', 'k'):
+            wi = fu.wraps(f, injected=[inj])(passthrough)
+            ps = inspect.signature(wi, follow_wrapped=False).parameters
+            other = 'k' if inj == 'b' else 'b'
+            if inj in ps or ps[other].default is not inspect.signature(f).parameters[other].default:
+                return ('injected:factory', 'injected=%r on the function made with defaults (%r, %r) -> %s'
+                        % (inj, d, kd, inspect.signature(wi, follow_wrapped=False)))
+    st.count('factory_families')
+    st.see(('factory', c['order']))
+    return None
+
+
 def check_names(c, st):
     fu = common.load('funcutils')
     src = NAME_SOURCES[c['names']]
@@ -566,6 +610,8 @@ def run(ctx):
                 if doc is not None:
                     case['doc_assigned'] = doc
                 run_case(ctx, case, check, 'names', None, shr0)
+        for order in ('fwd', 'rev', 'fwd'):
+            run_case(ctx, {'kind': 'factory', 'order': order}, check, 'factory', None, shr0)
     if ctx.thorough:
         mine = [s for i, s in enumerate(sigs) if i % ctx.nshards == ctx.shard]
         sample = None
